@@ -130,11 +130,18 @@ theorem construct_get (op : UOp) (t : Rel) (res : Res) (h : op.construct t = .ok
   · cases h
   · injection h with h; subst h; rfl
 
+theorem construct_supported (op : UOp) (t : Rel) (res : Res) (h : op.construct t = .ok res) :
+    op.isSupportedBy t.engine.kind = true := by
+  unfold UOp.construct at h
+  split at h
+  · cases h
+  · rename_i hs; simpa using hs
+
 /-- Generic preservation: a tree predicate `P` that survives dropping the top operation and
 adding an operation satisfying `Q`, where `Q` is closed under merging (`simplify`). -/
 theorem finishApply_pres (P : Rel → Prop) (Q Qu : UOp → Prop)
     (hdrop : ∀ up t c, P (.unary up t c) → P t ∧ Qu up)
-    (hadd : ∀ op t c, P t → Q op → P (.unary op t c))
+    (hadd : ∀ op t c, P t → Q op → op.isSupportedBy t.engine.kind = true → P (.unary op t c))
     (hsimp : ∀ new up s, new.simplify up = .ok (.replace s) → Q new → Qu up → Q s) :
     (t : Rel) → (op : UOp) → (res : Res) → P t → Q op → op.finishApply t = .ok res → P (res.get t)
   | .unary up t' c, op, res, hp, hq, h => by
@@ -148,7 +155,7 @@ theorem finishApply_pres (P : Rel → Prop) (Q Qu : UOp → Prop)
       | ok sres =>
         simp only [hs] at h
         cases sres with
-        | no => rw [construct_get op _ res h]; exact hadd _ _ _ hp hq
+        | no => rw [construct_get op _ res h]; exact hadd _ _ _ hp hq (construct_supported op _ res h)
         | keepUpstream => injection h with h; subst h; exact hp
         | replace s =>
           cases hr : UOp.finishApply s t' with
@@ -162,27 +169,27 @@ theorem finishApply_pres (P : Rel → Prop) (Q Qu : UOp → Prop)
     unfold UOp.finishApply at h
     split at h
     · injection h with h; subst h; exact hp
-    · rw [construct_get op _ res h]; exact hadd _ _ _ hp hq
+    · rw [construct_get op _ res h]; exact hadd _ _ _ hp hq (construct_supported op _ res h)
   | .binary a b c d, op, res, hp, hq, h => by
     unfold UOp.finishApply at h
     split at h
     · injection h with h; subst h; exact hp
-    · rw [construct_get op _ res h]; exact hadd _ _ _ hp hq
+    · rw [construct_get op _ res h]; exact hadd _ _ _ hp hq (construct_supported op _ res h)
   | .mat a b c, op, res, hp, hq, h => by
     unfold UOp.finishApply at h
     split at h
     · injection h with h; subst h; exact hp
-    · rw [construct_get op _ res h]; exact hadd _ _ _ hp hq
+    · rw [construct_get op _ res h]; exact hadd _ _ _ hp hq (construct_supported op _ res h)
   | .transfer a b c, op, res, hp, hq, h => by
     unfold UOp.finishApply at h
     split at h
     · injection h with h; subst h; exact hp
-    · rw [construct_get op _ res h]; exact hadd _ _ _ hp hq
+    · rw [construct_get op _ res h]; exact hadd _ _ _ hp hq (construct_supported op _ res h)
   | .select a b c d e f g i j, op, res, hp, hq, h => by
     unfold UOp.finishApply at h
     split at h
     · injection h with h; subst h; exact hp
-    · rw [construct_get op _ res h]; exact hadd _ _ _ hp hq
+    · rw [construct_get op _ res h]; exact hadd _ _ _ hp hq (construct_supported op _ res h)
 
 /-! #### arities -/
 
@@ -296,7 +303,7 @@ theorem finishApply_iterOK (t : Rel) (op : UOp) (res : Res) (ht : t.IterOK) (hop
     (h : op.finishApply t = .ok res) : (res.get t).IterOK :=
   finishApply_pres Rel.IterOK UOp.execOK UOp.execOK
     (fun up t c hp => by simp only [Rel.IterOK] at hp; exact ⟨hp.1, hp.2⟩)
-    (fun op t c hp hq => by simp only [Rel.IterOK]; exact ⟨hp, hq⟩)
+    (fun op t c hp hq _ => by simp only [Rel.IterOK]; exact ⟨hp, hq⟩)
     simplify_execOK t op res ht hop h
 
 /-! #### key-determined inputs of deduplications -/
@@ -341,7 +348,7 @@ theorem finishApply_kd (σ : Leaves) (t : Rel) (op : UOp) (res : Res) (ht : keyD
     (fun up t c hp => by
       simp only [keyDetermined, Bool.and_eq_true] at hp
       exact ⟨hp.1, trivial⟩)
-    (fun op t c hp hq => by
+    (fun op t c hp hq _ => by
       simp only [keyDetermined, Bool.and_eq_true]
       refine ⟨hp, ?_⟩
       cases op <;> first | rfl | (simp [UOp.isDedup] at hq))
